@@ -317,6 +317,24 @@ func (eng *Engine) initStubs2() {
 		n := int(e.Concretize(l64, true, "inflated length"))
 		return Tuple{Iface{t: zr, v: &zrState{src: src, remaining: n}}, Iface{}}
 	}
+	// vp.Noise(n): n concrete pseudo-random bytes (xorshift32, the same sequence
+	// natively), for large incompressible payloads without a harness loop
+	s[vpPath+".Noise"] = func(e *Exec, _ *frame, _ *ssa.Function, args []Value) Value {
+		nt := args[0].(*Term)
+		if !nt.IsConst() {
+			e.unsupported("vp.Noise with symbolic length")
+		}
+		n := nt.Const()
+		vals := make([]Value, n)
+		x := uint32(2463534242)
+		for i := range vals {
+			x ^= x << 13
+			x ^= x >> 17
+			x ^= x << 5
+			vals[i] = e.tc.BV(uint64(byte(x>>11)), 8)
+		}
+		return e.newByteSlice(vals)
+	}
 	// vp.Deflate / vp.Inflate: model codec under the engine, real zlib natively
 	s[vpPath+".Deflate"] = func(e *Exec, _ *frame, _ *ssa.Function, args []Value) Value {
 		return e.newByteSlice(e.modelDeflate(args[0].(Slice).c))
